@@ -217,3 +217,22 @@ func GuardsOnThresholdAndParticipants() {
 	permitted := vsym.And(n >= 1, t > n/2, t <= n)
 	vsym.Assert("T1-refused-iff-outside-the-permitted-range", guard == !permitted)
 }
+
+// GenerateMoreParticipantsThanPeers: a client asks for more participants than the instance has
+// peers (with a threshold that passes the guards): refused with an error, nothing crashes, no
+// account anywhere.
+func GenerateMoreParticipantsThanPeers() {
+	vsym.ForbidCrash()
+	ctx := context.Background()
+	ids := idsSmall[:3]
+	c := newCluster(ctx, ids, 70*time.Second)
+	n := uint32(4 + vsym.Choose("extra", 3)) // 4, 5 or 6 participants with 3 peers
+	t := n/2 + 1 + uint32(vsym.Choose("above-majority", 2))
+	vsym.Assume(t <= n)
+	_, _, err := c.nodes[ids[vsym.Choose("initiator", 3)]].proc.OnGenerate(ctx, hc.Creds(), walletName+"/acc", passphrase, t, n)
+	vsym.Assert("P0-too-many-participants-refused", err != nil)
+	for _, id := range ids {
+		vsym.Assert("P1-no-account-created", c.account(ctx, id, "acc") == nil)
+	}
+	vsym.Reach("asked-for-too-many-participants")
+}
